@@ -77,3 +77,21 @@ Theorem C19_retry_next : forall T alive r s last s' is ok, 2 <= length (targets 
   attempt T r s last alive = (s', is, ok) -> steps_ok (length (targets T s)) is.
 Proof. exact attempt_steps. Qed.
 Print Assumptions C19_retry_next.
+
+From Coq Require Import String ZArith.
+From Echo Require Import Base.GoLite Gen.Src_proxy Mw.ProxySrc.
+
+(* ---- the tie to the source by proof: roundRobinBalancer.Next, translated statement by statement from
+   middleware/proxy.go on every run (Gen/Src_proxy.v; language Base/GoLite.v), computes the model's [next]: the same
+   chosen index (or nil), the same global index afterwards, and the per-request index is recorded exactly when there
+   are two or more targets *)
+Theorem C19_source_next : forall (sym : string -> Z), sym "nil" = (-1)%Z -> forall T (s : st T) last,
+  let n := List.length (targets T s) in
+  let '(st1, ret) := GoLite.run sym src_rr_next_results src_rr_next (rr_state n (idx T s) last) in
+  let '(s', last', o) := next T s last in
+  ret = [enc o] /\
+  GoLite.get (fields st1) "b.i" = Z.of_nat (idx T s') /\
+  events st1 = (if 2 <=? n then [("c.Set", [sym "lastIdxKey"; enc o])] else [])%nat.
+Proof. exact src_rr_next_is_next. Qed.
+Print Assumptions C19_source_next.
+
